@@ -991,6 +991,17 @@ impl SenderInner<SenderLink<Target>> {
         mut initial_remote_attach: Option<Attach>,
         is_reattaching: bool,
     ) -> Result<(), SenderResumeErrorKind> {
+        // Only a link that is no longer attached and has not been closed can be attached again.
+        // In any other state nothing is allocated for it, so that dropping the link afterwards
+        // does not send a detach for a handle that never carried its attach
+        if !matches!(
+            self.link.local_state,
+            super::state::LinkState::Unattached
+                | super::state::LinkState::Detached
+                | super::state::LinkState::DetachSent
+        ) {
+            return Err(SenderAttachError::IllegalState.into());
+        }
         self.reallocate_output_handle().await?;
 
         let mut resend_buf = Vec::new();
